@@ -3,10 +3,13 @@
    `Print Assumptions` beneath, plus non-vacuity examples.
 
    Models: Model/Lexer.v (utils/reader.go + types/lexer.go), Model/Parser.v (types/parser.go +
-   types/basiccollector.go).  Oracles, universally quantified in every theorem: ol = unicode.IsLetter on non-ASCII
+   types/basiccollector.go), Model/Resolve.v (of the resolve stage: the positional creator of Enum,
+   types/enumtype.go, and the name test of deferred.Resolve, types/deferred.go; the other creators are covered by
+   the direct check only).  Oracles, universally quantified in every theorem: ol = unicode.IsLetter on non-ASCII
    runes, pf = strconv.ParseFloat, rx = regexp.Compile succeeds. *)
 From Coq Require Import ZArith NArith Bool List.
-From PcoreV Require Import Model.Base Model.Lexer Model.Parser Proofs.LexerProofs Proofs.LexerColumns Proofs.ParserProofs.
+From PcoreV Require Import Model.Base Model.Lexer Model.Parser Model.Resolve
+  Proofs.LexerProofs Proofs.LexerColumns Proofs.ParserProofs Proofs.ResolveProofs.
 Import ListNotations.
 Open Scope Z_scope.
 
@@ -93,6 +96,62 @@ Theorem C06_parse_file_total :
 Proof. exact parse_file_total. Qed.
 Print Assumptions C06_parse_file_total.
 
+(* ---- the resolve stage: the Enum creator and the name test of deferred.Resolve ------------------------- *)
+
+(* For every argument list (values of every shape and nesting, not only the plain ones) and every strings.ToLower,
+   the positional creator of Enum (newEnumType3: the slice `enums` is sized from the argument count - recomputed
+   after the array form has been flattened - and then written by argument index, truncated at the flag) never
+   reaches a fault site (enums[idx] = .. beyond len, enums[:idx] beyond cap) and its recursion into a single array
+   argument ends. *)
+Theorem C06_enum_creator_total :
+  forall (lower : str -> str) (args : list pv),
+    enum_create lower args <> EFault /\ enum_create lower args <> EOutOfFuel.
+Proof. exact enum_create_total. Qed.
+Print Assumptions C06_enum_creator_total.
+
+(* ... and it computes the reading without slices and indices: [] is the default Enum; a single array is read in
+   place of the list; an array followed by more arguments is read as the array's elements followed by them; the
+   list must be strings, optionally followed by the flag as the very last argument; otherwise the error names the
+   position of the first argument that is neither. *)
+Theorem C06_enum_creator_reading :
+  forall (lower : str -> str) (args : list pv),
+    enum_create lower args = enum_spec lower (S (args_depth args)) args.
+Proof. exact enum_create_spec. Qed.
+Print Assumptions C06_enum_creator_reading.
+
+Theorem C06_enum_array_form_is_flat_form :
+  forall (lower : str -> str) (l : list pv) (o : pv) (others : list pv),
+    enum_create lower (PArr l :: o :: others) = of_reading lower (strings_then_flag (l ++ o :: others) 0).
+Proof. exact enum_array_form_flat. Qed.
+Print Assumptions C06_enum_array_form_is_flat_form.
+
+(* Enum[[v1, .., vn], w, w1, .., wm] and Enum[[v1, .., vn], w1, .., wm, flag] of any lengths are accepted, with all
+   the values in order *)
+Theorem C06_enum_array_form_accepted :
+  forall (lower : str -> str) (vs ws : list str),
+    (forall w, enum_create lower (PArr (map PStr vs) :: map PStr (w :: ws)) = EOk (vs ++ w :: ws) false) /\
+    (forall b, enum_create lower (PArr (map PStr vs) :: map PStr ws ++ [PBool b]) =
+               EOk (if b then map lower (vs ++ ws) else vs ++ ws) b).
+Proof. exact enum_array_form_accepted. Qed.
+Print Assumptions C06_enum_array_form_accepted.
+
+(* deferred.Resolve never indexes a name that is too short (fn[0], fn[1:]); a name is a variable exactly when it
+   starts with '$', the variable's name is the rest (possibly empty); the empty name is a function name (on the
+   pinned tree it was an index out of range; fix 0047197) *)
+Theorem C06_deferred_name_test_total :
+  forall fn : str, deferred_target fn <> DFault.
+Proof. exact deferred_target_no_fault. Qed.
+Print Assumptions C06_deferred_name_test_total.
+
+Theorem C06_deferred_name_test :
+  forall fn : str,
+    deferred_target fn = match fn with
+                         | c :: vn => if N.eqb c 36 then DVar vn else DFunc fn
+                         | [] => DFunc fn
+                         end.
+Proof. exact deferred_target_spec. Qed.
+Print Assumptions C06_deferred_name_test.
+
 (* ---- non-vacuity ----------------------------------------------------------------------------------- *)
 
 Definition no_letters (r : N) : bool := false.
@@ -128,4 +187,25 @@ Proof. vm_compute. reflexivity. Qed.
 Example C06_parse_multibyte_located :
   parse_string no_floats all_regexps no_letters
     ([49; 32; 39] ++ flat_map (fun _ => [195; 169]) (seq 0 10) ++ [39])%N = PErr 1 4.
+Proof. vm_compute. reflexivity. Qed.
+
+(* Enum[[a, b, c], true] (the array form followed by the flag): the three values, case insensitive *)
+Example C06_enum_array_then_flag :
+  enum_create (fun s => s) [PArr [PStr [97]%N; PStr [98]%N; PStr [99]%N]; PBool true] = EOk [[97]; [98]; [99]]%N true.
+Proof. vm_compute. reflexivity. Qed.
+
+(* Enum[[a, b], c, 3]: the third of the flattened arguments is not a string: a reported error at index 3, not a fault *)
+Example C06_enum_array_then_bad :
+  enum_create (fun s => s) [PArr [PStr [97]%N; PStr [98]%N]; PStr [99]%N; PInt 3] = EErr 3.
+Proof. vm_compute. reflexivity. Qed.
+
+(* Enum[[[a]]]: the recursion into the single array argument *)
+Example C06_enum_nested_single_array :
+  enum_create (fun s => s) [PArr [PArr [PStr [97]%N]]] = EOk [[97]]%N false.
+Proof. vm_compute. reflexivity. Qed.
+
+(* Deferred(''): a function name; Deferred('$x'): the variable x *)
+Example C06_deferred_empty_name : deferred_target [] = DFunc [].
+Proof. vm_compute. reflexivity. Qed.
+Example C06_deferred_variable : deferred_target [36; 120]%N = DVar [120]%N.
 Proof. vm_compute. reflexivity. Qed.
